@@ -101,6 +101,14 @@ class Tr:
         raise Unsupported('callee ' + ast.dump(f)[:60])
 
     def expr(self, e, env, pre):
+        if not isinstance(e, ast.Constant) and not any(isinstance(n, (ast.Name, ast.Call, ast.Attribute)) for n in ast.walk(e)) \
+                and isinstance(e, (ast.BinOp, ast.UnaryOp)):
+            try:
+                v = eval(compile(ast.Expression(body=e), '<const>', 'eval'), {'__builtins__': {}})
+                if isinstance(v, int) and not isinstance(v, bool):
+                    return f'({v} : Int)', INT
+            except Exception:
+                pass
         if isinstance(e, ast.Constant):
             if e.value is None:
                 return 'none', NONE
